@@ -57,6 +57,8 @@ func DocAlphabet(name string) []WOp {
 		return []WOp{docPut("a", 1), docPutAll(2, "a"), docDel("a")}
 	case "twokeys":
 		return []WOp{docPut("a", 1), docPutAll(2, "b"), docDel("a")}
+	case "batch": // a batch of two documents, then single operations on its first-listed and last-listed member
+		return []WOp{docPutAll(1, "a", "b"), docPut("a", 2), docDel("b"), docPut("b", 3)}
 	case "keys":
 		return []WOp{docPut("a", 1), docPut("A", 2), docPut("ab", 1), docPut("a.b-1", 2), docPutAll(1, "a.b-1", "ab"), docDel("A"), docDel("a.b-1"), docPutBatch(2, "a", "A")}
 	}
